@@ -38,6 +38,22 @@ def obligations(tier):
             stubs=["stat/unlink/open/fstat/lseek/write/close: outcome of every call symbolic (tape); existence and times of the message's files symbolic"],
             assumes=["one message with a concrete number (path names concrete), arbitrary pre-state of its files, any number of failing calls"],
             claim=claim, expect_witnesses=wit))
+    steps.append(Obl("pass_dochan", "pass.c",
+        progs=[Prog("qmail-send.c", nomain=True, cut=["getinfo", "nextretry", "del_avail", "del_start", "job_close"])],
+        repo=UNITS + ["open_read.c", "substdio.c"], lib=["arena_stralloc.c", "ideal_substdio.c", "ideal_getln.c"],
+        defines={"ARENA_CAP": 64, "ARENA_SLOTS": 8}, sysrename=["open", "close", "read"],
+        grid=[{"CH": c, "RL": r} for (c, r) in (((0, 4), (1, 3)) if tier == "quick" else ((0, 4), (1, 4), (0, 6), (1, 6)))],
+        unwind_default=lambda p: p["RL"] + 8, timeout=600,
+        functions=["qmail-send.c:pass_dochan", "qmail-send.c:job_open", "qmail-send.c:job_avail", "qmail-send.c:fnmake_chanaddr"],
+        cuts=["getinfo -> symbolic result", "nextretry -> observed, symbolic result (C15 nextretry obligation)", "del_avail -> symbolic",
+              "del_start, job_close -> observed", "prioq_* -> one-element queue kept by the harness (C15 prioq_step)", "getln -> ideal stream"],
+        assumes=["arbitrary state: idle (entry due or not, job slot free or not) or mid-pass at an arbitrary offset; next RL bytes of the channel file symbolic; "
+                 "open/getinfo/read may fail"],
+        claim="C15: a pass starts only when the entry is due; C04: entry off the queue while the job is open, D records never started, "
+              "nothing started after TERM or without a free slot; C03(2): exactly one del_start per T record with the offset of its first byte, "
+              "numtodo counts T records, read errors/garbage abandon the pass without flaghiteof, open trouble re-queues",
+        expect_witnesses=["exitasap_nothing_started", "not_due_yet", "open_trouble_requeued", "pass_started", "no_slot_waits",
+                          "read_error_abandons_pass", "end_of_file", "T_record_started", "D_record_skipped", "unknown_record_abandons_pass"]))
     return steps + [
         Obl("del_dochan", "del_dochan.c",
             progs=[Prog("qmail-send.c", nomain=True, cut=["markdone", "addbounce", "job_close", "del_status"])],
